@@ -2,6 +2,8 @@ package main
 
 import (
 	"fmt"
+	"runtime/debug"
+	"strings"
 	"time"
 
 	"github.com/tidwall/geojson"
@@ -384,7 +386,16 @@ func evalCall(c *rt.Case) (bool, string, string, error) {
 			ch <- r
 		}()
 		if c.Kind == "parsecall" {
-			o, err := geojson.Parse(c.Doc, optByName(c.Cfg))
+			doc := c.Doc
+			if nm, ok := strings.CutPrefix(doc, "longrun#"); ok {
+				for _, lr := range c05LongRuns() {
+					if lr.name == nm {
+						doc = lr.gen()
+					}
+				}
+			}
+			debug.SetMaxStack(256 << 20)
+			o, err := geojson.Parse(doc, optByName(c.Cfg))
 			if (o == nil) == (err == nil) {
 				r.pan = "contract: exactly one of (object, error)"
 			}
@@ -426,4 +437,45 @@ func evalCall(c *rt.Case) (bool, string, string, error) {
 	case <-time.After(120 * time.Second):
 		return true, "returns", "no return within 120 s", nil
 	}
+}
+
+type longRun struct {
+	name string
+	gen  func() string
+}
+
+func c05LongRuns() []longRun {
+	const N = 24 << 20
+	pt := `{"type":"Point","coordinates":[1,2]}`
+	rep := func(unit string) string { return strings.Repeat(unit, N/len(unit)) }
+	var out []longRun
+	for _, u := range []struct{ n, unit string }{{"space", " "}, {"newline", "\n"}, {"tab", "\t"}, {"mixed", " \r\n\t"}} {
+		u := u
+		out = append(out,
+			longRun{"lead-" + u.n, func() string { return rep(u.unit) + pt }},
+			longRun{"trail-" + u.n, func() string { return pt + rep(u.unit) }},
+			longRun{"after-brace-" + u.n, func() string { return "{" + rep(u.unit) + pt[1:] }},
+			longRun{"before-colon-" + u.n, func() string { return `{"type"` + rep(u.unit) + `:"Point","coordinates":[1,2]}` }},
+			longRun{"in-position-" + u.n, func() string { return `{"type":"Point","coordinates":[1,` + rep(u.unit) + `2]}` }},
+			longRun{"in-member-" + u.n, func() string { return `{"type":"Point","coordinates":[1,2],"m":[` + rep(u.unit) + `]}` }},
+			longRun{"only-" + u.n, func() string { return rep(u.unit) }},
+		)
+	}
+	out = append(out,
+		longRun{"string-member", func() string { return `{"type":"Point","coordinates":[1,2],"m":"` + rep("a") + `"}` }},
+		longRun{"string-escapes", func() string { return `{"type":"Point","coordinates":[1,2],"m":"` + rep(`\n`) + `"}` }},
+		longRun{"string-id", func() string {
+			return `{"type":"Feature","id":"` + rep("x") + `","geometry":` + pt + `,"properties":{}}`
+		}},
+		longRun{"key", func() string { return `{"type":"Point","` + rep("k") + `":1,"coordinates":[1,2]}` }},
+		longRun{"type-name", func() string { return `{"type":"` + rep("P") + `","coordinates":[1,2]}` }},
+		longRun{"digits", func() string { return `{"type":"Point","coordinates":[1` + rep("0") + `,2]}` }},
+		longRun{"fraction", func() string { return `{"type":"Point","coordinates":[0.` + rep("0") + `1,2]}` }},
+		longRun{"exponent", func() string { return `{"type":"Point","coordinates":[1e` + rep("0") + `1,2]}` }},
+		longRun{"ordinates", func() string { return `{"type":"Point","coordinates":[1,2` + rep(",0") + `]}` }},
+		longRun{"member-array", func() string { return `{"type":"Point","coordinates":[1,2],"m":[0` + rep(",0") + `]}` }},
+		longRun{"empty-positions", func() string { return `{"type":"MultiPoint","coordinates":[[1,2]` + rep(",[]") + `]}` }},
+		longRun{"null-geometries", func() string { return `{"type":"GeometryCollection","geometries":[` + pt + rep(",null") + `]}` }},
+	)
+	return out
 }
